@@ -84,6 +84,32 @@ def run(ctx):
         cases.append({"w": wire.case("checkformat_delegating_metadata", {"signatures": {"anykey": v}, "signed": P}), "meta": {"tag": "sigvalue"}})
     core.run_stream(ctx, core.Stream("checkformat_delegating_metadata: valid documents (optional-field combinations x roles x signature maps) and every single mutation at every JSON path",
                                      cases, acc_rel, oracle, nontrivial=lambda c, i, m: c["meta"]["tag"] != "valid"))
+    # the envelope gate as written in common.py: Gen/Source.v (translated on this run) interpreted by PySrc.run_prog, against the implementation
+    senv = list(envs[:3]) + [v for v in interesting_values()]
+    for x in interesting_values():
+        try:
+            senv += [{"signatures": {}, "signed": x}, {"signatures": x, "signed": {}}, {"signed": x, "signatures": {"k": 1}}]
+        except TypeError:
+            pass
+    senv += [{"signatures": {}}, {"signed": {}}, {}, {"signatures": {}, "signed": {}, "x": 1}, {"signatures": {}, "Signed": {}}, {"signatures": {}, 1: {}},
+             {1: {}, 2: {}}, {"signatures": {}, None: 1}, {"signatures": {}, ("signed",): 1}, {"signatures": {}, b"signed": 1}, {"signatures": {}, "signed": b"x"},
+             {"signatures": {}, "signed": bytearray(b"x")}, {"signatures": {}, "signed": {1}}, {"signatures": {}, "signed": wire.Obj(1)}, {"signatures": {}, 1.5: 2}]
+    for tag, (m,) in G.mutations((envs[0],), vals[:12]):
+        senv.append(m)
+    scases = []
+    for fn in ("is_signable", "checkformat_signable"):
+        for v in senv:
+            try:
+                scases.append({"w": wire.case("src_run", fn, v), "meta": {"fn": fn}})
+            except TypeError:
+                pass
+
+    def rel_src(c, io, mo):
+        if io != mo:
+            return "the interpreted source and the implementation differ on %s: impl %s, interpreter %s" % (c["meta"]["fn"], io[:80], mo[:80])
+        return None
+    core.run_stream(ctx, core.Stream("interpreted source (Gen/Source.v via PySrc.run_prog) vs implementation: is_signable / checkformat_signable on envelope shapes",
+                                     scases, rel_src, None, nontrivial=lambda c, i, m: m != "U"))
     # dates: model of strptime + datetime range checks vs the implementation, and vs an independent regex oracle
     dcases = []
     dates = list(DATES)
